@@ -464,12 +464,14 @@ def verify_rejects(V, times):
 # ------------------------------------------------------------------------------------------------ linear
 
 
-def linear(V, n, share):
-    """share: list of length n; share[i] = j < i means tensor i has the same weight_compression_config as tensor j"""
+def linear(V, n, share, aligns=None):
+    """share: list of length n; share[i] = j < i means tensor i has the same weight_compression_config as tensor j.
+    aligns: per-range alignment (a range may ask for more than the allocation granularity, e.g. --cpu-tensor-alignment 64)"""
     import ethosu.vela.tensor_allocation as ta
 
     sizes = _sizes(V, n)
-    lrs = [_mk_lr("t%d" % i, 0, 1, sizes[i], 16) for i in range(n)]
+    aligns = aligns or [16] * n
+    lrs = [_mk_lr("t%d" % i, 0, 1, sizes[i], aligns[i]) for i in range(n)]
     for i in range(n):
         t = lrs[i].tensors[0]
         t.weight_compression_config = ("cfg", share[i])
@@ -497,20 +499,41 @@ def linear(V, n, share):
         for j in owners:
             if i < j:
                 cl.append(("distinct tensors %d,%d overlap" % (i, j), _disjoint(addrs[i], sizes[i], addrs[j], sizes[j])))
-    cl.append(("total == sum of rounded sizes of distinct tensors", L(total) == exp))
+    if all(a == gran for a in aligns):
+        cl.append(("total == sum of rounded sizes of distinct tensors", L(total) == exp))
     top = L(0)
     for i in owners:
         e = L(addrs[i]) + ((L(sizes[i]) + gran - 1) / gran) * gran
         top = z3.If(e > top, e, top)
-    cl.append(("total == top", L(total) == top))
+    if all(a == gran for a in aligns):
+        cl.append(("total == top", L(total) == top))
+    else:
+        cl.append(("total never below the highest end address", L(total) >= top))
     return cl
+
+
+def lr_alignment(V, first, second):
+    """LiveRangeGraph.get_or_create_range: a live range looked up again (with the default or a smaller alignment) keeps the strictest
+    alignment ever requested for it - both allocators read lr.get_alignment()"""
+    import ethosu.vela.live_range as lrm
+    from ethosu.vela.tensor import Tensor
+    from ethosu.vela.data_type import DataType
+
+    t = Tensor([1, 4, 4, 16], DataType.int8, "t")
+    g = lrm.LiveRangeGraph()
+    a1 = V.choice("align1", [16, 32, 64, 128]) if first is None else first
+    a2 = V.choice("align2", [None, 16, 32, 64, 128]) if second is None else second
+    r1 = g.get_or_create_range(t, a1)
+    r2 = g.get_or_create_range(t) if a2 is None else g.get_or_create_range(t, a2)
+    want = max(a1, 16 if a2 is None else a2)
+    return [("same live range returned", r1 is r2), ("alignment is the strictest ever requested", r2.get_alignment() == want)]
 
 
 # ------------------------------------------------------------------------------------------------ instances
 
 FUNCS = {"hc_indices": hc_indices, "hc_wrapper": hc_wrapper, "hc_search_step": hc_search_step, "hc_fix_perm": hc_fix_perm,
          "hc_allocate": hc_allocate, "greedy_step": greedy_step, "greedy_whole": greedy_whole, "verify_rejects": verify_rejects,
-         "linear": linear}
+         "linear": linear, "lr_alignment": lr_alignment}
 
 
 def _time_vectors(n, T):
@@ -577,4 +600,9 @@ def instances(tier, seed):
         for share in itertools.product(*[range(i + 1) for i in range(n)]):
             if all(share[share[i]] == share[i] for i in range(n)):  # points at an owner
                 out.append(dict(key="linear/%d/%s" % (n, "".join(map(str, share))), fn="linear", params=dict(n=n, share=list(share))))
+                if n >= 2:
+                    for av in ((16, 64, 16), (64, 16, 128), (128, 128, 16)):
+                        out.append(dict(key="linear/%d/%s/a%s" % (n, "".join(map(str, share)), "-".join(map(str, av[:n]))), fn="linear",
+                                        params=dict(n=n, share=list(share), aligns=list(av[:n]))))
+    out.append(dict(key="lr_alignment", fn="lr_alignment", params=dict(first=None, second=None)))
     return out
